@@ -139,15 +139,31 @@ def run(ctx):
                 else:
                     table = tables.open_case(path, fc, lazy=lazy, buffer=buffer).read()
                 n_got = len(table)
-                if n_got >= 2 and r.random() < 0.3:
-                    # the columns of a row slice are read first (slices share the table's buffers), then the whole table
-                    kcut = r.randint(1, n_got - 1)
-                    part = read_columns(table[:kcut], fc, buffer)
-                    bad_part = tables.compare_columns(part, {f_: v_[:kcut] for f_, v_ in exp.items()})
-                    if bad_part:
-                        ctx.violation(classify(fc, variant, bad_part[0][0], mode) + ":row-slice", "%s field %s of table[:%d] parsed as %r, the text means %r" % (variant, bad_part[0][0], kcut, bad_part[0][2], bad_part[0][3]),
-                                      {"variant": variant, "mode": mode, "data": fc["data"].decode("latin1"), "field": bad_part[0][0]})
-                    ctx.count("slice_read_before_whole")
+                if n_got >= 2 and r.random() < 0.4:
+                    # something is done with a row slice first (slices share the table's buffers): its columns are read, or it is written to a file;
+                    # only then are the columns of the whole table read.  None of this may change what the table's columns say.
+                    a_ = r.choice([0, 0, r.randint(0, n_got - 1)])
+                    b_ = r.randint(a_ + 1, n_got)
+                    st_ = r.choice([1, 1, 1, 2])
+                    sl_ = r.choice([slice(a_, b_, st_), slice(a_, b_), slice(a_, None)])
+                    part_t = table[sl_]
+                    rows_ = list(range(n_got))[sl_]
+                    what_ = r.choice(["columns", "columns", "write", "write-then-columns"])
+                    if what_ != "columns" and mode != "raw" and fmt.lazy:
+                        try:
+                            bt_ = tables.get_buffer_type(buffer or fmt.buffer)
+                            with bnp.open(ctx.path("part" + fmt.suffix), "w", buffer_type=bt_) as of_:
+                                of_.write(part_t)
+                            ctx.count("slice_written_before_whole")
+                        except Exception:
+                            ctx.count("slice_write_refused")
+                    if what_ != "write":
+                        part = read_columns(part_t, fc, buffer)
+                        bad_part = tables.compare_columns(part, {f_: (None if v_ is None else [v_[i_] for i_ in rows_]) for f_, v_ in exp.items()})
+                        if bad_part:
+                            ctx.violation(classify(fc, variant, bad_part[0][0], mode) + ":row-slice", "%s field %s of table[%s] parsed as %r, the text means %r" % (variant, bad_part[0][0], sl_, bad_part[0][2], bad_part[0][3]),
+                                          {"variant": variant, "mode": mode, "data": fc["data"].decode("latin1"), "field": bad_part[0][0]})
+                        ctx.count("slice_read_before_whole")
                 cols = read_columns(table, fc, buffer)
             except Exception as e:
                 from bnpmon.ctx import exc_site, originates_in_library
